@@ -134,6 +134,10 @@ def directed(rng):
         add('baseend-note-%d' % v, {'conc': 1, 'basectx': True}, [S(call(1)), D, S(note()), D, dict(a='baseend'), D, hret('m1.1', 'ctxerr'), D,
                                                                  S(note()), D, S(call(2)), D] + ([dict(a='stop'), D] if v == 0 else [dict(a='peerclose'), D] if v == 1 else [dict(a='stop'), D, dict(a='restart'), S(call(1)), D])
                                                                  )
+        # a reply is on its way out (the goroutine inside Send holds the server's lock): a handler that returns meanwhile
+        # gives its slot up all the same, and whoever waits for one starts
+        add('slot-free-while-sending-%d' % v, {'conc': 1 + v % 2}, [S(call(1)), D] + ([S(call(4)), D] if v % 2 else []) + [S(call(2)), D, S(call(3)), D, dict(a='holdop', kind='send'),
+                                                                    hret('m1.1'), D, hret('m%d.1' % (3 if v % 2 else 2)), D, dict(a='unhold'), D])
         # the barrier and the limit at every concurrency setting: both messages are in before anything is released,
         # so the drain chooses which goroutine reaches the semaphore first
         for conc in (1, 2, 3):
